@@ -25,3 +25,5 @@ def run(ctx):
         gsmgeom.run(ctx, "C04")
         from .. import alac           # CAF/ALAC: packet staging, pakt / kuki chunks, read / seek around the codec core (lean/SfModel/AlacFile.lean)
         alac.run(ctx, "C04", 96 if q else 960)
+        from .. import adpcmenc       # IMA / MS ADPCM writers: block-size rule at every sample-rate threshold, N <= F < N + B (lean/SfProps/C07Adpcm.lean)
+        adpcmenc.run(ctx, "C04", 60 if q else 600)
